@@ -1,19 +1,27 @@
 import MosnVerif.Model.WeightedCluster
 namespace MosnVerif.Model.WeightedCluster
 
+set_option linter.unusedSimpArgs false in
+/-- the regenerated scan is the interval partition. The proof splits on `w = 0` first, so that it also goes through
+when the loop body skips zero-weight clusters with `continue` (a harmless shortcut); a `break` there does not. -/
 theorem scan_eq_ref (l : List Entry) (v : Nat) : scan l (v : Int) = selectRef l v := by
   induction l generalizing v with
   | nil => simp [scan, selectRef]
   | cons e r ih =>
     obtain ⟨n, w⟩ := e
-    simp only [scan, selectRef, Gen.WeightedCluster.step]
-    by_cases h : v < w
-    · have : ((v : Int) - (w : Int) < 0) := by omega
-      simp [h, this]
-    · have h2 : ¬ ((v : Int) - (w : Int) < 0) := by omega
-      have h3 : ((v : Int) - (w : Int)) = ((v - w : Nat) : Int) := by omega
-      simp only [h, h2, decide_false, Bool.false_eq_true, if_false]
-      rw [h3]; exact ih _
+    simp only [scan, selectRef, Gen.WeightedCluster.stepCtl]
+    by_cases hw0 : w = 0
+    · subst hw0
+      have hv : ¬ ((v : Int) < 0) := by omega
+      simpa [hv] using ih v
+    · have hw1 : ¬ ((w : Int) = 0) := by omega
+      by_cases h : v < w
+      · have : ((v : Int) - (w : Int) < 0) := by omega
+        simp [h, this, hw0, hw1]
+      · have h2 : ¬ ((v : Int) - (w : Int) < 0) := by omega
+        have h3 : ((v : Int) - (w : Int)) = ((v - w : Nat) : Int) := by omega
+        simp only [h, h2, hw0, hw1, decide_false, Bool.false_eq_true, if_false]
+        rw [h3]; exact ih _
 
 theorem select_eq_ref (l : List Entry) (v : Nat) : select l v = selectRef l v := scan_eq_ref l v
 
